@@ -26,6 +26,7 @@ def run(ctx):
         cases.append((2, 0, lzma.compress(data, format=lzma.FORMAT_ALONE, filters=[{'id': lzma.FILTER_LZMA1, 'dict_size': ds}]), 'lzma dict %d' % ds))
         cases.append((4, 0, lzma.compress(data, format=lzma.FORMAT_XZ, filters=[{'id': lzma.FILTER_DELTA, 'dist': 3}, {'id': lzma.FILTER_X86}, {'id': lzma.FILTER_LZMA2, 'dict_size': ds}]), 'auto xz delta+x86 dict %d' % ds))
     cases.append((3, 0, lz_member(rng, data[:3000], dict_code=20), 'lz dict 1MiB'))
+    cases.append((3, 0, lz_member(rng, data[:2000], dict_code=12) + lz_member(rng, data[:3000], dict_code=20) + lz_member(rng, data[:1000], dict_code=22), 'lz three members with growing dictionaries'))
     # two Blocks with different needs: the second limit error comes mid-stream
     f2 = xzgen.stream([(data[:4000], [{'id': 'lzma2', 'dict_size': 4096}], {}), (data[4000:9000], [{'id': 'lzma2', 'dict_size': 1 << 20}], {}), (data[9000:], [{'id': 'delta', 'dist': 1}, {'id': 'lzma2', 'dict_size': 1 << 22}], {})], 4, rng)
     cases.append((0, 0, f2, 'xz three Blocks with growing dictionaries'))
@@ -65,7 +66,7 @@ def run(ctx):
         why = None
         if lim >= need and errs: why = 'limit %d >= need %d but MEMLIMIT_ERROR was returned' % (lim, need)
         elif lim < need and not errs and lab != 'file_info' and peak > lim + ALLOWANCE: why = 'limit %d below the need %d was not enforced: peak %d' % (lim, need, peak)
-        elif errs and seen < need and 'three Blocks' not in lab and lab != 'file_info': why = 'lzma_memusage() after the error reported %d, the decoder needs %d' % (seen, need)
+        elif errs and seen < need and 'three Blocks' not in lab and 'three members' not in lab and lab != 'file_info': why = 'lzma_memusage() after the error reported %d, the decoder needs %d' % (seen, need)
         elif fr != 1 or t[9] != bt[9] or t[8] != bt[8]: why = 'after raising the limit to the reported amount the result differs from the unlimited run (status %d)' % fr
         elif peak > max(lim, seen, need) + ALLOWANCE: why = 'peak %d exceeds limit/reported usage %d + allowance' % (peak, max(lim, seen))
         if why: viol.append(dict(why='%s, limit %d: %s' % (lab, lim, why), line=l[:3000], stderr=''))
